@@ -385,14 +385,11 @@ impl<'a> HavokBinaryTagFileReader<'a> {
     }
 
     fn default_value(type_: HavokValueType) -> HavokValue {
-        if type_.is_vec() {
-            HavokValue::Array(
-                (0..type_.vec_size())
-                    .map(|_| Self::default_value(type_.base_type()))
-                    .collect::<Vec<_>>(),
-            )
-        } else if type_.is_array() || type_.is_tuple() {
+        if type_.is_array() || type_.is_tuple() {
             HavokValue::Array(Vec::new())
+        } else if type_.is_vec() {
+            // (the base type of a vector type is the vector type itself: recursing on it never ends)
+            HavokValue::Vec(vec![0.0; type_.vec_size() as usize])
         } else {
             match type_ {
                 HavokValueType::EMPTY => HavokValue::Integer(HavokInteger::default()),
